@@ -620,6 +620,39 @@ def _native_strings(tier="quick", seed=0):
         t2.cell(0, 1).text = s
         if t2.cell(0, 1).text != want_frame or len(body3.p_lst) != s.count("\n") + 1:
             bad = bad or "cell with three empty paragraphs: cell.text = %r reads %r in %d paragraphs, documented %r" % (s, t2.cell(0, 1).text, len(body3.p_lst), want_frame)
+    # several shapes that arrive without a text body (PowerPoint omits p:txBody on unpopulated placeholders; a cell may lack a:txBody):
+    # each gets a body of its own on first use -- what one is assigned, the others do not read, now and after save / re-open
+    prs_n = Presentation()
+    sl_n = prs_n.slides.add_slide(prs_n.slide_layouts[6])
+    bare = []
+    for i_ in range(4):
+        shp_ = sl_n.shapes.add_shape(1, Emu(0), Emu(0), Emu(100), Emu(100))
+        tb_ = shp_._element.txBody
+        if tb_ is not None:
+            shp_._element.remove(tb_)
+        bare.append(shp_)
+    tbl_n = sl_n.shapes.add_table(2, 2, Emu(0), Emu(0), Emu(100), Emu(100)).table
+    for r_, c_ in ((0, 0), (0, 1), (1, 0), (1, 1)):
+        tc_ = tbl_n.cell(r_, c_)._tc
+        if tc_.txBody is not None:
+            tc_.remove(tc_.txBody)
+    texts_ = ["shape %d\nsecond" % i_ for i_ in range(4)]
+    for shp_, t_ in zip(bare, texts_):
+        evals += 1
+        shp_.text_frame.text = t_
+    cells_ = [tbl_n.cell(r_, c_) for r_, c_ in ((0, 0), (0, 1), (1, 0), (1, 1))]
+    for i_, cl_ in enumerate(cells_):
+        cl_.text = "cell %d" % i_
+    got_ = [shp_.text_frame.text for shp_ in bare] + [cl_.text for cl_ in cells_]
+    want_ = texts_ + ["cell %d" % i_ for i_ in range(4)]
+    if got_ != want_:
+        bad = bad or "four shapes and four cells without a text body, each assigned its own text: they read %r" % (got_,)
+    b_n = io.BytesIO()
+    prs_n.save(b_n)
+    sl_r = Presentation(io.BytesIO(b_n.getvalue())).slides[0]
+    got_r = [sh_.text_frame.text for sh_ in sl_r.shapes if sh_.has_text_frame] + [sl_r.shapes[-1].table.cell(r_, c_).text for r_, c_ in ((0, 0), (0, 1), (1, 0), (1, 1))]
+    if got_r != want_:
+        bad = bad or "four shapes and four cells without a text body, each assigned its own text: after save / re-open they read %r" % (got_r,)
     ob1 = {"name": "C04.native.four_levels", "base": "C04.native.four_levels", "kind": "bounded", "status": "refuted" if bad else "discharged", "backend": "native", "time": 0, "path": 0}
     if bad:
         ob1["replay"] = {"confirmed": True, "witness_class": "text-roundtrip", "detail": bad}
